@@ -75,7 +75,8 @@ class C09(object):
     assumptions = ['admissible parameters keep the portfolio share inside (0,1) and wealth positive',
                    'REG/REG2/OPENG are not claimed by the property']
     required_counters = ('SIM.judged', 'SIMEX1.judged', 'PC.judged', 'iterative.judged', 'exact_equalities.judged',
-                         'offgrid.judged', 'nonzero_initial_stocks.judged', 'PAIR.judged', 'book_exogenous_overwritten.cases')
+                         'offgrid.judged', 'nonzero_initial_stocks.judged', 'PAIR.judged', 'book_exogenous_overwritten.cases',
+                         'parameters_as_exogenous_series.cases')
 
     def n_cases(self, tier):
         return 60 if tier == 'quick' else 6000
@@ -101,7 +102,10 @@ class C09(object):
                 'YD0': float(rng.randint(5, 30)),
                 # build with the book's own exogenous paths first and then overwrite them (AddExogenous: "Overwrites
                 # an existing variable definition")
-                'book_first': rng.random() < 0.4}
+                'book_first': rng.random() < 0.4,
+                # propensities, tax rate (and PC's lambdas) supplied as constant exogenous series instead of attributes,
+                # as the bundled scripts ex20190324_consumption_propensity / ex20190412_oscillate_wildly do
+                'params_exogenous': (idx // 7) % 2 == 1}
         if which == 'PAIR':
             case['T'] = min(T, 10)
             case['members'] = []
@@ -119,21 +123,28 @@ class C09(object):
         return case
 
     # ------------------------------------------------------------------------------------------
-    def configure(self, b, mod, which, p, G, r, V0, YD0, T, prefix=''):
+    def configure(self, b, mod, which, p, G, r, V0, YD0, T, prefix='', params_exogenous=False):
         """Set parameters/paths/initial stocks of one book economy through the public API; returns
         (closed form, {symbol: series name})."""
         c = b.Country
         hh = c['HH']
-        hh.AlphaIncome = p['a1']
-        hh.AlphaFin = p['a2']
-        c['TF'].TaxRate = p['th']
+        if params_exogenous:
+            hh.SetExogenous('AlphaIncome', [p['a1']] * (T + 3))
+            hh.SetExogenous('AlphaFin', [p['a2']] * (T + 3))
+            c['TF'].SetExogenous('TaxRate', [p['th']] * (T + 3))
+        else:
+            hh.AlphaIncome = p['a1']
+            hh.AlphaFin = p['a2']
+            c['TF'].TaxRate = p['th']
         names = {'Y': prefix + 'GOOD__SUP_GOOD', 'YD': prefix + 'HH__AfterTax', 'C': prefix + 'HH__DEM_GOOD'}
         if which == 'PC':
             c['TRE'].SetExogenous('DEM_GOOD', list(G))
             c['DEP'].SetExogenous('r', list(r))
-            hh.SetEquationRightHandSide('L0', repr(p['l0']))
-            hh.SetEquationRightHandSide('L1', repr(p['l1']))
-            hh.SetEquationRightHandSide('L2', repr(p['l2']))
+            for lv, key in (('L0', 'l0'), ('L1', 'l1'), ('L2', 'l2')):
+                if params_exogenous:
+                    hh.SetExogenous(lv, [p[key]] * (T + 3))
+                else:
+                    hh.SetEquationRightHandSide(lv, repr(p[key]))
             B0 = V0 * (p['l0'] + p['l1'] * r[0]) - p['l2'] * YD0
             B0 = float(min(max(B0, 0.1 * V0), 0.9 * V0))
             for role, var, val in (('HH', 'F', V0), ('HH', 'DEM_DEP', B0), ('HH', 'DEM_MON', V0 - B0),
@@ -227,7 +238,10 @@ class C09(object):
         mod.EquationSolver.MaxIterations = 5000
         mod.EquationSolver.ParameterErrorTolerance = 1e-10
         V0 = case['V0']
-        cf, names = self.configure(b, mod, which, p, case['G'], case['r'], V0, case['YD0'], T)
+        cf, names = self.configure(b, mod, which, p, case['G'], case['r'], V0, case['YD0'], T,
+                                   params_exogenous=bool(case.get('params_exogenous')))
+        if case.get('params_exogenous'):
+            rec.count('parameters_as_exogenous_series.cases')
         if case.get('book_first'):
             rec.count('book_exogenous_overwritten.cases')
         try:
